@@ -2,7 +2,7 @@
 
 SERVER_RULE = (
     "server engine: a real dht.Server on a fake PacketConn driven through generated event histories (scenarios table / "
-    "methods / tokens / peers / queries / blocklist / misc / budget / bep44 / collide: peers' own queries carrying our outstanding transaction ids / tokens and methods over the configuration lattice peer store x announce hook x WaitToReply x query hook / peershook: a blocking OnAnnouncePeer hook released by the history / peerfam: get_peers over stored-peer families x requester address form x want x table families / autoid: table, peerfam, methods with ServerConfig.NodeId unset x PublicIP x NoSecurity, root = Server.ID() / roresp + rodirected: ro flag on responses and errors / intargs: port, implied_port, noseed, scrape, seq, cas and reply integers at and beyond their ranges, read back by get_peers of both families and get / putreject: every return path of put and get followed by more queries); after EVERY event the datagrams written, "
+    "methods / tokens / peers / queries / blocklist / misc / budget / bep44 / collide: peers' own queries carrying our outstanding transaction ids / tokens and methods over the configuration lattice peer store x announce hook x WaitToReply x query hook / peershook: a blocking OnAnnouncePeer hook released by the history / peerfam: get_peers over stored-peer families x requester address form x want x table families / autoid: table, peerfam, methods with ServerConfig.NodeId unset x PublicIP x NoSecurity, root = Server.ID() / roresp + rodirected: ro flag on responses and errors / intargs: port, implied_port, noseed, scrape, seq, cas and reply integers at and beyond their ranges, read back by get_peers of both families and get / putreject: every return path of put and get followed by more queries / veto: an OnQuery hook refusing one, several or all methods on open and enforcing nodes - senders of refused queries are admitted, refreshed and turned away exactly like those of answered ones / closest: more than K good contacts of one family over 2-4 adjacent buckets heard from in every order); after EVERY event the datagrams written, "
     "callbacks, peer-store calls, query completions, the routing-table snapshot (hook) and API counters are compared with "
     "the extracted model's step on the same event (relational where Go leaves a choice: eviction victim, node-list "
     "members/order, values order, transaction id); a case line is distinct by its full event text incl. its history "
@@ -46,7 +46,10 @@ PROPS = {
     "C08": server("oracle: destination, echoed t, at most one datagram, 203/204, response form, silence on non-queries"),
     "C09": server("oracle: node lists <= 8 distinct good responded contacts of the right family, nearest buckets first "
                   "relative to the query's target; a reply without values lists every wanted family that has a good contact at or "
-                  "below the target's bucket"),
+                  "below the target's bucket; api engine, kind maintshare (oracle only): a real TableMaintainer with a short resend "
+                  "delay on a table whose entries share an address or an id (stale entries beside a contact that answered moments "
+                  "ago); probes before, during and after the questionable pings: every contact that answered and was never the "
+                  "(address, id) of an unanswered ping stays listed", engines=("server", "api")),
     "C10": server("oracle: announce_peer/put with a token never issued to that IP or older than 15 min has no effect; a token "
                   "younger than 10 min is honoured"),
     "C11": server("oracle: get_peers values = announced endpoints (uint16 port, implied_port), BEP 32 family filtering, token present"),
